@@ -211,6 +211,19 @@ func c13FileContent(t *rapid.T, name string) []byte {
 			for _, k := range rapid.SliceOfN(rapid.SampledFrom([]string{"build", "test", "start", "lint", "dev", "deploy", "x y", ""}), 0, 4).Draw(t, "scripts") {
 				scripts[k] = "echo " + k
 			}
+			if rapid.Bool().Draw(t, "compound-names") {
+				// names in the group:task / group-task conventions, built from few components, so that one
+				// word is a whole name here, a leading group there and a trailing qualifier elsewhere -
+				// and sometimes a word that other sources of boosts (project types) also name
+				part := rapid.SampledFrom([]string{"build", "test", "docker", "lint", "unit", "e2e", "watch", "git", "npm", "deploy", "go", "make", "k8s"})
+				for i, n := 0, rapid.IntRange(1, 6).Draw(t, "n-compound"); i < n; i++ {
+					k := part.Draw(t, "part")
+					for j, m := 0, rapid.IntRange(0, 2).Draw(t, "more-parts"); j < m; j++ {
+						k += rapid.SampledFrom([]string{":", ":", "-", "_", ".", "/", " "}).Draw(t, "joint") + part.Draw(t, "part")
+					}
+					scripts[k] = "echo " + k
+				}
+			}
 			d, _ := json.Marshal(map[string]any{"name": "x", "scripts": scripts})
 			return d
 		case 1:
@@ -346,9 +359,15 @@ func TestC13_Analyzer(t *testing.T) {
 				t.Fatalf("boosts after an in-place edit %v differ from a fresh directory's %v", again.GetContextBoosts(), fresh.GetContextBoosts())
 			}
 		}
-		b1, b2 := c1.GetContextBoosts(), c1.GetContextBoosts()
-		if !reflect.DeepEqual(b1, b2) {
-			t.Fatalf("GetContextBoosts differs between two calls: %v vs %v", b1, b2)
+		b1 := c1.GetContextBoosts()
+		for rep := 0; rep < 8; rep++ {
+			// (eight more calls: a result that depends on the iteration order of a small map differs only now and then)
+			if b2 := c1.GetContextBoosts(); !reflect.DeepEqual(b1, b2) {
+				t.Fatalf("GetContextBoosts differs between two calls: %v vs %v; files=%v package.json=%.300s", b1, b2, names, contents["package.json"])
+			}
+		}
+		if b2 := c2.GetContextBoosts(); !reflect.DeepEqual(b1, b2) {
+			t.Fatalf("two directories with identical listing and content get different boosts: %v vs %v; files=%v package.json=%.300s", b1, b2, names, contents["package.json"])
 		}
 		for w, f := range b1 {
 			if math.IsNaN(f) || math.IsInf(f, 0) || f < 1 {
